@@ -192,6 +192,19 @@ def fam_forin():
         out.append({"id": "c08-loopcond-while-" + nm, "prog": [Let("n", I(0)), While(c, [P(1), Let("n", Bin("+", Id("n"), I(1))), If(Bin(">=", Id("n"), I(2)), [BRK])]), P(9), Ret(Id("n"))]})
         out.append({"id": "c08-loopcond-cfor-" + nm, "prog": [CFor(Let("j", I(0)), c, Inc("j"), [P(2), If(Bin(">=", Id("j"), I(1)), [BRK])]), P(9), Ret(I(0))]})
         out.append({"id": "c08-loopcond-if-" + nm, "prog": [If(c, [P(3)], els=[P(4)]), P(Tern(c, I(5), I(6))), Ret(I(0))]})
+    # long lists (beyond any chunking an implementation might use): break / continue / return / an error end or skip exactly where they stand
+    big = L(*[I(k) for k in range(300)])
+    for nm, leaf in (("brk", [BRK]), ("ret", [Ret(I(5))]), ("thr", [Throw(S("t"))]), ("cnt", [CNT])):
+        for at in (10, 255, 256, 257):
+            body = [Let("n", Bin("+", Id("n"), I(1))), If(Bin("==", Id("x"), I(at)), leaf), If(Bin(">", Id("x"), I(at + 2)), [BRK])]
+            loop = ForIn(["x"], big, body)
+            if nm == "ret":
+                prog = [Let("n", I(0)), FnStmt("f", [], [loop, Ret(I(0))]), P(Call("f")), P(Id("n")), Ret(I(0))]
+            elif nm == "thr":
+                prog = [Let("n", I(0)), Try([loop], "e", [P(Id("e"))]), P(Id("n")), Ret(I(0))]
+            else:
+                prog = [Let("n", I(0)), loop, P(Id("n")), Ret(I(0))]
+            out.append({"id": "c08-forin-long-%s-%d" % (nm, at), "prog": prog})
     out.append({"id": "c08-forin-bad", "prog": [P(1), ForIn("v", I(3), [P(2)]), P(3), Ret(I(0))]})
     # return value forms
     for nm, r in (("none", Ret()), ("one", Ret(I(4))), ("two", Ret(I(4), S("x"))), ("list", Ret(L(I(1), I(2)))), ("nil", Ret(NIL))):
@@ -540,6 +553,11 @@ def fam_c07():
         add("ret-%s" % bad, [FnStmt("f", [], [Ret(*o)]), Try([P(Call("f"))], "e", [P(60)]), Ret(I(0))])
         add("multi-assign-%s" % bad, [Try([Let(["x", "y", "z"], o), P(Id("x")), P(Id("y")), P(Id("z"))], "e", [P(60)]), Ret(I(0))])
         add("var-multi-%s" % bad, [Try([Var(["x", "y", "z"], o), P(Id("x"))], "e", [P(60)]), Ret(I(0))])
+    # more right-hand values than targets: every one of them is still evaluated, once, in order (and a failing one ends the statement)
+    for bad in (None, 2, 3):
+        o = ops(4, bad)
+        add("multi-assign-surplus-%s" % bad, [Try([Let(["x", "y"], o), P(Id("x")), P(Id("y"))], "e", [P(60)]), Ret(I(0))])
+        add("var-multi-surplus-%s" % bad, [Try([Var(["x", "y"], o), P(Id("x")), P(Id("y"))], "e", [P(60)]), Ret(I(0))])
     for bad in (None, 0, 1):
         o = ops(2, bad)
         add("map-%s" % bad, [Try([P(M((S("k1"), o[0]), (S("k2"), o[1])))], "e", [P(60)]), Ret(I(0))])
